@@ -57,8 +57,8 @@ PROPS = {
         'targets': ['Corr/Dispatch.vo', 'Proto/Run.vo'],
     },
     'C04': {
-        'level_text': 'Proved: mirrored session keys for every pair of distinct DH values; text survives pad/serialise/parse unchanged; (with C05) an accepted message is never accepted again over any history. Every run: random interleavings of sends and FIFO deliveries with ticks and rotations, fragmenting senders whose piece size divides the encoded length exactly, compared step by step with the machine; oracle: per direction the plaintext sequence received equals the sequence sent.',
-        'level_note': 'partial: the theorem that under FIFO delivery every genuine message is accepted (two-party ratchet invariant) is not proved; that direction rests on the correspondence runs and the sequence oracle.',
+        'level_text': "Theorems: C04_window_never_missed - in EVERY schedule of sends by either side and in-order deliveries after a key exchange, with any number of rotations, each message's key ids are inside the receiver's 2x2 window when it arrives (two-direction invariant, induction over the schedule), and that id dynamics is the one of the key-management model (sending writes emit, an accepted message moves the ids as absorb does); mirrored session keys for every pair of distinct DH values; text survives pad/serialise/parse unchanged; (with C05) an accepted message is never accepted again over any history. Every run: random interleavings of sends and FIFO deliveries with ticks and rotations, fragmenting senders whose piece size divides the encoded length exactly, compared step by step with the machine; oracle: per direction the plaintext sequence received equals the sequence sent.",
+        'level_note': 'partial: that the keys behind equal key ids are equal on both sides and that the counters of genuine in-order messages always pass is not one theorem (it follows the same invariant with the exponent values added); that part rests on the correspondence runs and the sequence oracle.',
         'trusted': ['the conversation model is symbolic: DH values are exponent ids, shared secrets unordered pairs, keys (secret, role) terms, a MAC verifies iff it was computed with the same key over the same fields (perfect-cryptography idealisation)', 'internal projections (key ids, list lengths, state names) are read through the verif-tagged hook VerifSnapshot'],
         'assumptions': ['DH values drawn are pairwise distinct'],
         'targets': ['Corr/Dispatch.vo', 'Proto/Run.vo'],
